@@ -1,3 +1,196 @@
-/- C02 property theorems (not written yet) -/
+/-
+C02 — form data survives encode → parse unchanged (multipart and urlencoded).
+Property theorems only (helper lemmas: Lemmas/Urlencode.lean, Lemmas/FormOptions.lean,
+Lemmas/Multipart.lean).
+
+Models: Model/Urlencode.lean (`quote_plus`, `urlencode`, `unquote` with the `werkzeug.url_quote`
+handler, `parse_qsl` — stdlib, validated by stream `urlencode-kernels`), Model/FormOptions.lean
+(`parse_options_header`), Model/Multipart.lean (`MultipartEncoder.send_event`, the decoder).
+-/
+import WzVerif.Lemmas.Urlencode
+import WzVerif.Lemmas.FormOptions
+import WzVerif.Lemmas.Multipart
 namespace Wz.Props.C02
+open Wz
+
+/-! ### URL-encoded forms and query strings -/
+
+/-- The `safe=` literal of the single `urlencode(...)` call in `werkzeug.urls._urlencode` (found by
+AST on every run) keeps `%`, `+`, `&` and `=` escaped, and the model's notion of "left alone"
+agrees with the live function on every ASCII character. -/
+theorem urlencode_safe_literal :
+    Gen.Urlencode.urlencodeSafeSites = 1 ∧
+    Urlencode.SafeOk Gen.Urlencode.urlencodeSafe ∧
+    ∀ n, n < 128 →
+      Gen.Urlencode.liveUnescaped.getD n false = Urlencode.kept Gen.Urlencode.urlencodeSafe (UInt8.ofNat n) := by
+  refine ⟨by decide, by decide +kernel, ?_⟩
+  decide +kernel
+
+/-- **unquote_quotePlus (bytes).** For every `safe` set that keeps `%` and `+` escaped and every
+byte string: percent-decoding the `quote_plus` output (after `+` → space) returns the bytes. -/
+theorem unquote_quotePlus {safe : Bytes} (hs : Urlencode.SafeOk safe) (bs : Bytes) :
+    Urlencode.unquoteBytes ((Urlencode.quotePlus safe bs).map Urlencode.p2s) = bs :=
+  Urlencode.unquoteBytes_quotePlus hs bs
+
+/-- ... in particular for the literal werkzeug uses -/
+theorem unquote_quotePlus_werkzeug (bs : Bytes) :
+    Urlencode.unquoteBytes ((Urlencode.quotePlus Gen.Urlencode.urlencodeSafe bs).map Urlencode.p2s) = bs :=
+  unquote_quotePlus urlencode_safe_literal.2.1 bs
+
+example : Urlencode.quotePlus Gen.Urlencode.urlencodeSafe [97, 32, 43, 37, 38, 61, 195, 169] =
+    "a+%2B%25%26%3D%C3%A9".toUTF8.toList := by decide +kernel
+
+/-- **unquote_quotePlus (text).** For every Unicode string `s`:
+`unquote(quote_plus(s, safe).replace('+', ' '), errors="werkzeug.url_quote") == s`. -/
+theorem unquote_quotePlus_text {safe : Bytes} (hs : Urlencode.SafeOk safe) (s : List Char) :
+    Urlencode.unquote (Urlencode.plusToSpace (Urlencode.asciiStr (Urlencode.quotePlusStr safe s))) = s :=
+  Urlencode.unquote_quotePlusStr hs s
+
+/-- **parseQsl_urlencode.** For every list of (key, value) pairs over Unicode scalar values —
+repeated keys, empty keys, empty values, `&`, `=`, `+`, `%` inside keys and values included —
+`parse_qsl(_urlencode(items), keep_blank_values=True, errors="werkzeug.url_quote") == items`
+(what `Request.form` for url-encoded bodies and `Request.args` compute). -/
+theorem parseQsl_urlencode (items : List (List Char × List Char)) :
+    Urlencode.parseQsl true (Urlencode.asciiStr (Urlencode.wzUrlencode items)) = items :=
+  Urlencode.parseQsl_urlencode_lemma urlencode_safe_literal.2.1 items
+
+/-- the caveat of the empty list: it encodes to the empty string, which parses to the empty list -/
+theorem parseQsl_urlencode_nil :
+    Urlencode.wzUrlencode [] = [] ∧ Urlencode.parseQsl true [] = [] := by
+  constructor <;> rfl
+
+example : Urlencode.parseQsl true (Urlencode.asciiStr (Urlencode.wzUrlencode
+    [(['a', ' '], ['&', '=']), (['a', ' '], []), ([], ['é'])])) =
+    [(['a', ' '], ['&', '=']), (['a', ' '], []), ([], ['é'])] := by
+  decide +kernel
+
+/-- without `keep_blank_values` the round trip is false (empty values are dropped): the flag
+werkzeug passes matters -/
+theorem parseQsl_urlencode_keepBlank_needed :
+    ¬ (∀ items : List (List Char × List Char),
+        Urlencode.parseQsl false (Urlencode.asciiStr (Urlencode.wzUrlencode items)) = items) := by
+  intro h
+  have := h [(['a'], [])]
+  revert this
+  decide +kernel
+
+/-! ### multipart: Content-Disposition -/
+
+/-- **parseOptions_disposition.** For every name and optional filename free of `"`, `\` and the
+substring `%22` (CR / LF are excluded one level up, by the header line syntax):
+`parse_options_header('form-data; name="n"; filename="f"')` returns exactly `n` and `f`
+(`;`, `=`, spaces, quotes' neighbours, non-ASCII … inside the names do not matter). -/
+theorem parseOptions_disposition (n : List Char) (f : Option (List Char)) (hn : FormOptions.NameOk n)
+    (hf : ∀ x, f = some x → FormOptions.NameOk x) :
+    FormOptions.parseOptionsHeader (FormOptions.dispositionValue n f) =
+      .ok ("form-data".toList,
+        ("name".toList, n) :: (match f with | none => [] | some x => [("filename".toList, x)])) :=
+  FormOptions.parseOptions_disposition_lemma n f hn hf
+
+example : FormOptions.NameOk "a;b=\"".toList = False ∧ FormOptions.NameOk "a; b=c é%2".toList := by
+  constructor
+  · simp [FormOptions.NameOk]
+  · decide
+
+/-- the excluded sequence really is excluded for a reason: `%22` comes back as a double quote -/
+theorem parseOptions_disposition_pct22_false :
+    ¬ (∀ n : List Char, '"' ∉ n → '\\' ∉ n →
+        (FormOptions.parseOptionsHeader (FormOptions.dispositionValue n none)).toOption =
+          some ("form-data".toList, [("name".toList, n)])) := by
+  intro h
+  have := h ['%', '2', '2'] (by decide) (by decide)
+  revert this
+  decide +kernel
+
+/-- The header line `MultipartEncoder.send_event` writes for a Field / File event is
+`Content-Disposition: ` followed by the UTF-8 of `dispositionValue name filename`. -/
+theorem encoder_writes_disposition (bnd : Bytes) (n : List Char) (hs : Multipart.Headers) :
+    Multipart.sendEvent bnd .part (.field (some n) hs) =
+      .ok (Multipart.crlf ++ 45 :: 45 :: bnd ++ Multipart.crlf ++
+            (Multipart.str "Content-Disposition: " ++ utf8Enc (FormOptions.dispositionValue n none)) ++
+            Multipart.crlf ++
+            ((hs.filter fun (k, _) => Multipart.lowerAscii k != "content-disposition".toList).map
+              fun (k, v) => utf8Enc (k ++ ':' :: ' ' :: v) ++ Multipart.crlf).flatten,
+          .dataStart) := by
+  have e : Multipart.str "Content-Disposition: " ++ utf8Enc (FormOptions.dispositionValue n none) =
+      Multipart.str "Content-Disposition: form-data; name=\"" ++ utf8Enc n ++ [34] := by
+    have h1 : Multipart.str "Content-Disposition: form-data; name=\"" =
+        Multipart.str "Content-Disposition: " ++ utf8Enc (FormOptions.kFormData ++ ';' :: ' ' :: (FormOptions.kName ++ ['=', '"'])) := by
+      decide +kernel
+    have h2 : utf8Enc ['"'] = [34] := by decide +kernel
+    rw [h1, ← h2]
+    simp [FormOptions.dispositionValue, utf8Enc, List.flatMap_append]
+  simp only [Multipart.sendEvent]
+  rw [e]
+  simp [List.append_assoc]
+
+/-! ### multipart: payload framing -/
+
+/-- **decode_encode (DATA phase), every chunking.** The encoder frames a non-empty payload as
+`CRLF payload CRLF --boundary…`. For every boundary without CR/LF, every payload none of whose
+lines starts with `--boundary` (`PayloadOk`: CR/LF runs, `--`, near-copies of the boundary, binary
+are all allowed) and every way the framed bytes are split into chunks, the decoder's DATA loop
+returns exactly the payload, recognises the right kind of delimiter and leaves what follows it
+(up to the split-CRLF LF of C01). -/
+theorem decode_encode_data {bnd : Bytes} (hb : Multipart.BoundaryOk bnd) (payload tail : Bytes) {f : Bool}
+    {rest : Bytes} (hp : Multipart.PayloadOk bnd payload) (ht : Multipart.AfterDelim tail f rest)
+    (buf : Bytes) (chunks : List Bytes) (hbuf : 0 < Multipart.lbLen buf)
+    (hjoin : buf ++ chunks.flatten = 13 :: 10 :: payload ++ 13 :: 10 :: (Multipart.delim bnd ++ tail)) :
+    ∃ R', Multipart.dataPhase bnd true buf [] chunks = .ok (payload, some (f, R')) ∧
+      (f = false → R' = rest ∨ R' = 10 :: rest) := by
+  have hspec := Multipart.dataSpec_encoded hb payload tail hp ht
+  rw [← hjoin] at hspec
+  rcases Multipart.dataPhase_true_sound hb chunks buf [] payload f rest hbuf hspec with ⟨R', h1, h2⟩
+  exact ⟨R', by simpa using h1, h2⟩
+
+/-- the body-less form the encoder uses for an empty payload (`headers CRLF CRLF--boundary`) -/
+theorem decode_encode_data_empty {bnd : Bytes} (hb : Multipart.BoundaryOk bnd) (tail : Bytes) {f : Bool}
+    {rest : Bytes} (ht : Multipart.AfterDelim tail f rest)
+    (buf : Bytes) (chunks : List Bytes) (hbuf : 0 < Multipart.lbLen buf)
+    (hjoin : buf ++ chunks.flatten = 13 :: 10 :: (Multipart.delim bnd ++ tail)) :
+    ∃ R', Multipart.dataPhase bnd true buf [] chunks = .ok ([], some (f, R')) ∧
+      (f = false → R' = rest ∨ R' = 10 :: rest) := by
+  have hspec := Multipart.dataSpec_encoded_empty (bnd := bnd) tail ht
+  rw [← hjoin] at hspec
+  rcases Multipart.dataPhase_true_sound hb chunks buf [] [] f rest hbuf hspec with ⟨R', h1, h2⟩
+  exact ⟨R', by simpa using h1, h2⟩
+
+/-- non-vacuity: CRLF runs, a trailing CR, a leading LF, `--` and a one-byte-off copy of the
+boundary are admissible payload -/
+example : Multipart.PayloadOk (Multipart.str "bound")
+    (Multipart.str "\n\r\n\r\n--boun\r\n--bounX--\r\n--\r") ∧
+    ¬ Multipart.PayloadOk (Multipart.str "bound") (Multipart.str "x\r\n--bound\r\ny") := by
+  decide +kernel
+
+/-- **F02a.** The unrestricted encode → decode statement over event lists is false: an empty first
+Data event followed by a non-empty one is written without the blank line and the result does not
+decode. -/
+theorem decode_encode_events_full_false :
+    ¬ (∀ (n : List Char) (d1 d2 body : Bytes),
+        (Multipart.encodeEvents [98] .preamble
+            [.preamble [], .field (some n) [], .data d1 true, .data d2 false, .epilogue []]).toOption = some body →
+        (Multipart.decodeChunks [98] none none [body]).err = none) := by
+  intro h
+  have := h ['a'] [] [97, 98, 99]
+    (Multipart.str "\r\n--b\r\nContent-Disposition: form-data; name=\"a\"\r\nabc\r\n--b--\r\n")
+    (by decide +kernel)
+  revert this
+  decide +kernel
+
+/-
+-- OPEN: decode_encode — for every boundary (`BoundaryOk`, non-empty) and list of parts satisfying
+-- the decidable `Valid` predicate (names / filenames `NameOk` and free of CR / LF; header names
+-- without ':' and leading/trailing white space, not starting with SP / TAB, values stripped, no
+-- CR / LF; `PayloadOk bnd payload`; every part encoded as Field/File + one Data event):
+--   partsOf (decodeChunks bnd none none [encodeAll bnd parts]).events = expected parts
+-- (the decoded headers are the Content-Disposition header followed by the part's own headers).
+-- Proved: the per-phase facts the statement is made of — `parseOptions_disposition`
+-- (Content-Disposition), `decode_encode_data` / `decode_encode_data_empty` (payload framing, for
+-- every chunking), `encoder_writes_disposition`; and C01's search lemmas. Missing: the glue over the
+-- header block (`_parse_headers` on the encoder's header lines: splitlines / strip / UTF-8 /
+-- partition) and over the sequence of parts. The statement over arbitrary Data chunkings is false
+-- (`decode_encode_events_full_false`, finding F02a). The whole statement is exercised on the real
+-- code by streams `encoder-events` and `client-roundtrip`.
+-/
+
 end Wz.Props.C02
